@@ -172,7 +172,10 @@ func (p *Validator) validateBuffer(buf []byte, last bool) error {
 				continue
 			}
 		case numComma:
-			if 0 < len(p.stack) && p.stack[len(p.stack)-1] == '{' {
+			if len(p.stack) == 0 {
+				return p.newError(off, "unexpected comma")
+			}
+			if p.stack[len(p.stack)-1] == '{' {
 				p.mode = keyMap
 			} else {
 				p.mode = commaMap
@@ -323,7 +326,7 @@ func (p *Validator) validateBuffer(buf []byte, last bool) error {
 			}
 		}
 	}
-	if last && len(p.mode) == 256 { // valid finishing maps are one byte longer
+	if last && (0 < len(p.stack) || len(p.mode) == 256) { // valid finishing maps are one byte longer
 		return p.newError(off, "incomplete JSON")
 	}
 	return nil
